@@ -229,3 +229,19 @@ Theorem Base_rn_cmp_sturm_cond : forall (R : rcfType), count_open_correct_premis
   rn_denotes x a -> rn_denotes y b -> rn_cmp fuel x y = Some s -> zr s = Num.sg (a - b).
 Proof. exact: rn_cmp_spec_sturm. Qed.
 Print Assumptions Base_rn_cmp_sturm_cond.
+
+(* multiplication of a reference number by a rational, directly on the representation: unconditional *)
+Theorem Base_rn_mul_q : forall (R : rcfType) (x : rnum) (q : Z * Z) (v : R),
+  rn_denotes x v -> qpos q -> rn_denotes (rn_mul_q x q) (v * qr q).
+Proof. exact: rn_mul_q_spec. Qed.
+Print Assumptions Base_rn_mul_q.
+
+(* exact value of a reference multivariate polynomial at real algebraic points (the reference of C10-C12):
+   mp_evalR rhoR p = sum over the terms (m, c) of  c * prod over (v, e) in m of rhoR v ^ e  - the formula of
+   MPoly.mp_eval, read in R *)
+Theorem Base_mp_eval_rn_cond : forall (R : rcfType), count_open_correct_premise R ->
+  forall (fuel : nat) (rho : MPoly.var -> rnum) (rhoR : MPoly.var -> R) (p : MPoly.mpoly) (z : rnum),
+  (forall v, rn_denotes (rho v) (rhoR v)) ->
+  mp_eval_rn fuel rho p = Some z -> rn_denotes z (mp_evalR rhoR p).
+Proof. exact: mp_eval_rn_spec_sturm. Qed.
+Print Assumptions Base_mp_eval_rn_cond.
